@@ -148,9 +148,20 @@ def run(c):
         want = [("N", c["v"]), ("C",)]
         return None if untimed(out) == want and not esc else {"got": untimed(out), "expected": want, "escaped": esc}
     if f == "repeat_value":
-        out, esc = record(lambda s: rx.repeat_value(c["v"], c["n"]))
+        made = []
+
+        def build(s):
+            if not made:
+                made.append(rx.repeat_value(c["v"], c["n"]))
+            return made[0]
+        out, esc = record(build)
         want = [("N", c["v"])] * c["n"] + [("C",)]
-        return None if untimed(out) == want and not esc else {"got": untimed(out), "expected": want, "escaped": esc}
+        if untimed(out) != want or esc:
+            return {"got": untimed(out), "expected": want, "escaped": esc}
+        # the SAME observable subscribed again (as repeat / retry / concat would): the same sequence again
+        out2, esc2 = record(build)
+        return None if untimed(out2) == want and not esc2 else {"got": untimed(out2), "expected": want, "escaped": esc2,
+                                                               "note": "second subscription of the same repeat_value(v, n) observable"}
     if f == "empty":
         out, esc = record(lambda s: rx.empty())
         return None if untimed(out) == [("C",)] and not esc else {"got": untimed(out), "escaped": esc}
